@@ -409,7 +409,7 @@ pub fn check_c15(tier: Tier) -> i32 {
     use Op::*;
     use Sz::*;
     let alphabet = vec![B(N(7)), B(N(40)), B(R), B(Rp(1)), T(U64), AB(A16, N(9)), AB(U64, Rm(8)), BO(N(16)), D(0), D(1), Disc, IncDisc(3), SetMin(0), Rewind(Pos::Start(0)), Rewind(Pos::End(0)), Rewind(Pos::Cur(-9)), Rewind(Pos::Cur(1 << 40)), Clear];
-    let depth = if thorough { 4 } else { 3 };
+    let depth = if thorough { 5 } else { 4 };
     let spec = Spec { alphabet: alphabet.clone(), depth, oracles: O_READERS, sync: true, unsync: true, diff: false, diff_prop: "C15" };
     let hcells: Vec<Cfg> = crate::props_hist::cells(&[(Backend::Vec, false), (Backend::Vec, true), (Backend::File, true)], 225, 256);
     explore(&run, &spec, &hcells, &[Start::fresh(), fragmented_starts()[1].clone(), fragmented_starts()[4].clone()], "C15");
@@ -960,7 +960,7 @@ pub fn check_c16(tier: Tier) -> i32 {
   use Op::*;
   use Sz::*;
   let alphabet = vec![B(N(7)), B(N(16)), B(R), T(U64), T(A16), AB(U32, N(5)), TO(U16), D(0), D(1), F(0), Disc, IncDisc(3), SetMin(0), Rewind(Pos::Start(0)), Rewind(Pos::End(190)), Rewind(Pos::Cur(-300)), Clear];
-  let spec = Spec { alphabet: alphabet.clone(), depth: if thorough { 5 } else { 3 }, oracles: O_LAYOUT, sync: true, unsync: true, diff: false, diff_prop: "C16" };
+  let spec = Spec { alphabet: alphabet.clone(), depth: if thorough { 5 } else { 4 }, oracles: O_LAYOUT, sync: true, unsync: true, diff: false, diff_prop: "C16" };
   let mut cells = vec![];
   for fl in Fl::ALL {
     for (b, u) in [(Backend::Vec, false), (Backend::Vec, true), (Backend::Anon, true), (Backend::File, true), (Backend::File, false)] {
@@ -1200,7 +1200,7 @@ pub fn check_c17(tier: Tier) -> i32 {
   for p in [Pos::Start(0), Pos::Start(50), Pos::End(0), Pos::End(10), Pos::Cur(-20), Pos::Cur(-1), Pos::Cur(8), Pos::Cur(i64::MIN), Pos::Cur(1 << 40)] {
     alpha.push(Rewind(p));
   }
-  let spec = Spec { alphabet: alpha.clone(), depth: if thorough { 4 } else { 3 }, oracles: O_REWIND, sync: true, unsync: true, diff: false, diff_prop: "C17" };
+  let spec = Spec { alphabet: alpha.clone(), depth: if thorough { 5 } else { 4 }, oracles: O_REWIND, sync: true, unsync: true, diff: false, diff_prop: "C17" };
   let hcells: Vec<Cfg> = crate::props_hist::cells(&[(Backend::Vec, false), (Backend::Vec, true), (Backend::File, true)], 225, 256);
   explore(&run, &spec, &hcells, &[Start::fresh(), fragmented_starts()[1].clone(), fragmented_starts()[4].clone()], "C17");
   // (c) clear + continuation vs fresh arena
